@@ -320,6 +320,19 @@ def windowed_traversal(ctx: Ctx, rule: str) -> None:
                           f"`for {k} in {norm(it)}` works `{seq}` off in windows `{norm(sl)}` but does not run from 0 to `len({seq})` in steps of the window length: the entries "
                           f"past `{norm(bound)}` are never visited (folder tasks beyond the first batch are not started: their members are silently missing from the "
                           "extraction, or the stride skips / repeats entries)", construct=f"windowed traversal of {seq}")
+                # a stride computed from a length (`min(len(X), LIMIT)`) is 0 for an empty list and range() refuses a zero step: such a stride needs a
+                # dominating `stride > 0` (a constant, a parameter or an attribute is taken as given)
+                se = q.expand_locals(f, stride)
+                if any(isinstance(x, ast.Call) and dotted(x.func) in ("len", "min") for x in ast.walk(se)):
+                    sn = norm(stride)
+                    pos = any(pol and isinstance(cd, ast.Compare) and (
+                        (norm(cd.left) == sn and isinstance(cd.ops[0], ast.Gt) and isinstance(cd.comparators[0], ast.Constant) and cd.comparators[0].value == 0) or
+                        (isinstance(cd.left, ast.Constant) and cd.left.value == 0 and isinstance(cd.ops[0], ast.Lt) and norm(cd.comparators[0]) == sn)) for cd, pol in q.facts_at(f, lp)) \
+                        or (isinstance(se, ast.Call) and dotted(se.func) == "max" and any(isinstance(a_, ast.Constant) and isinstance(a_.value, int) and a_.value > 0 for a_ in se.args))
+                    ctx.check(pos, rule, f, lp, f"{f.qname}: the stride `{sn}` cannot be zero",
+                              f"`for {k} in {norm(it)}`: the stride `{sn}` = `{norm(se)}` is 0 when the list is empty and `range()` raises ValueError('arg 3 must not be zero'): an "
+                              "extraction that has nothing to decode in this arm (only members without a stream selected from a multi-folder archive) fails in the threaded arm while "
+                              "the sequential arm succeeds", construct=f"zero stride over {seq}")
     ctx.floor(rule, n, 3, "windowed list traversals")
 
 
